@@ -13,7 +13,8 @@ const SSRC_S: u32 = 0x1111_2222;
 const SSRC_OTHER: u32 = 0x3333_4444;
 
 fn rtp(ssrc: u32, marker: bool, seq: u16, rng: &mut Rng) -> Bytes {
-    let mut p = vec![0x80u8, if marker { 0x80 } else { 0 } | (rng.below(2) as u8 * 8), 0, 0];
+    // version 2; padding / extension / CSRC-count bits are free, payload type 0 or 8
+    let mut p = vec![0x80u8 | (rng.below(64) as u8), if marker { 0x80 } else { 0 } | (rng.below(2) as u8 * 8), 0, 0];
     p[2..4].copy_from_slice(&seq.to_be_bytes());
     p.extend_from_slice(&(rng.next() as u32).to_be_bytes()); // timestamp: free
     p.extend_from_slice(&ssrc.to_be_bytes());
